@@ -491,13 +491,17 @@ def _process(cls: t.Type[PaneBase], opts: PaneOptions):
             kw_only = True
             continue
 
-        if isinstance(getattr(cls, name, None), FieldSpec):
+        # (what PaneBase itself defines - 'dict', 'from_data', ... - is no default for a field of that name)
+        default = getattr(cls, name, _MISSING) if any(
+            name in base.__dict__ for base in cls.__mro__ if base not in (PaneBase, object)
+        ) else _MISSING
+        if isinstance(default, FieldSpec):
             # process existing FieldSpec
-            spec: FieldSpec = getattr(cls, name)
+            spec: FieldSpec = default
             spec.ty = ty
         else:
             # make new spec
-            spec = FieldSpec(ty=ty, default=getattr(cls, name, _MISSING))
+            spec = FieldSpec(ty=ty, default=default)
 
         spec.kw_only |= kw_only
         cls_specs[name] = spec
